@@ -153,6 +153,12 @@ type PathElem struct {
 type Ptr struct {
 	obj  *Obj
 	path []PathElem
+	alts []PtrAlt // non-empty: a guarded choice of concrete pointers (result of merging paths); guards are disjoint and exhaustive
+}
+
+type PtrAlt struct {
+	g *Cond
+	p Ptr
 }
 type ArrayV struct{ elems []Value }
 type StructV struct{ fields []Value }
@@ -424,6 +430,22 @@ func (m *Machine) storePath(v Value, path []PathElem, nv Value) Value {
 	panic(fmt.Sprintf("storePath on %T", v))
 }
 func (m *Machine) load(p Ptr) Value {
+	if len(p.alts) > 0 {
+		var gs []*Cond
+		var vals []Value
+		for _, a := range p.alts {
+			if a.p.obj == nil && len(a.p.alts) == 0 {
+				m.oblige(cNot(a.g), "nil pointer dereference", "")
+				continue
+			}
+			gs = append(gs, a.g)
+			vals = append(vals, m.load(a.p))
+		}
+		if len(vals) == 0 {
+			m.fail("nil deref")
+		}
+		return m.mergeVals(gs, vals)
+	}
 	if p.obj == nil {
 		m.oblige(m.cbool(false), "nil pointer dereference", "")
 		m.fail("nil deref")
@@ -431,6 +453,17 @@ func (m *Machine) load(p Ptr) Value {
 	return m.loadPath(m.cur.mem[p.obj.id], p.path)
 }
 func (m *Machine) store(p Ptr, v Value) {
+	if len(p.alts) > 0 {
+		for _, a := range p.alts {
+			if a.p.obj == nil && len(a.p.alts) == 0 {
+				m.oblige(cNot(a.g), "nil pointer dereference", "")
+				continue
+			}
+			old := m.load(a.p)
+			m.store(a.p, m.mergeVals([]*Cond{a.g, cNot(a.g)}, []Value{v, old}))
+		}
+		return
+	}
 	if p.obj == nil {
 		m.oblige(m.cbool(false), "nil pointer dereference", "")
 		m.fail("nil deref")
@@ -440,6 +473,22 @@ func (m *Machine) store(p Ptr, v Value) {
 		m.oblige(m.cbool(false), "effect: store to memory that existed before the call: "+p.obj.name+pathString(p.path), "")
 	}
 	m.cur.mem[p.obj.id] = m.storePath(m.cur.mem[p.obj.id], p.path, v)
+}
+
+// ptrExtend appends a path element to a (possibly guarded) pointer.
+func ptrExtend(p Ptr, pe PathElem) Ptr {
+	if len(p.alts) > 0 {
+		n := Ptr{}
+		for _, a := range p.alts {
+			if a.p.obj == nil && len(a.p.alts) == 0 {
+				n.alts = append(n.alts, a)
+				continue
+			}
+			n.alts = append(n.alts, PtrAlt{g: a.g, p: ptrExtend(a.p, pe)})
+		}
+		return n
+	}
+	return Ptr{obj: p.obj, path: append(append([]PathElem{}, p.path...), pe)}
 }
 
 // ---------- ints ----------
@@ -575,11 +624,26 @@ func (m *Machine) binop(op token.Token, x, y Value, t types.Type, xt types.Type,
 		}
 	case Ptr:
 		b := y.(Ptr)
-		same := a.obj == b.obj && fmt.Sprint(a.path) == fmt.Sprint(b.path)
-		if op == token.EQL {
-			return VBool{m.cbool(same)}
+		var c *Cond
+		if len(a.alts) > 0 || len(b.alts) > 0 {
+			if len(b.alts) > 0 {
+				a, b = b, a
+			}
+			// guarded pointer against a plain one
+			c = m.cbool(false)
+			for _, al := range a.alts {
+				same := al.p.obj == b.obj && fmt.Sprint(al.p.path) == fmt.Sprint(b.path) && len(al.p.alts) == 0 && len(b.alts) == 0
+				if same {
+					c = m.cor(c, al.g)
+				}
+			}
+		} else {
+			c = m.cbool(a.obj == b.obj && fmt.Sprint(a.path) == fmt.Sprint(b.path))
 		}
-		return VBool{m.cbool(!same)}
+		if op == token.NEQ {
+			c = cNot(c)
+		}
+		return VBool{c}
 	case IfaceV:
 		b := y.(IfaceV)
 		isNil := func(v IfaceV) (*Cond, bool) { // (condition, known)
@@ -660,21 +724,29 @@ func (m *Machine) binopInt(op token.Token, a, b *Lin, t types.Type, pos token.Po
 		if !b.isConst() {
 			a, b = b, a
 		}
-		mk := new(big.Int).Add(b.c, big.NewInt(1))
-		if !b.isConst() || mk.BitLen() == 0 || new(big.Int).And(mk, b.c).Sign() != 0 {
-			panic("int mode: AND with non-mask")
+		if !b.isConst() {
+			panic("int mode: AND of two symbolic operands")
 		}
 		if a.isConst() {
-			return VInt{lin: linConst(new(big.Int).Mod(a.c, mk))}
+			w, signed, _ := intInfo(t)
+			x, y := new(big.Int).And(a.c, mask(w)), new(big.Int).And(b.c, mask(w))
+			rr := new(big.Int).And(x, y)
+			if signed && rr.Bit(w-1) == 1 {
+				rr.Sub(rr, new(big.Int).Lsh(big.NewInt(1), uint(w)))
+			}
+			return VInt{lin: linConst(rr)}
 		}
-		_, rr := m.divmod(a, mk)
-		return VInt{lin: rr}
+		return VInt{lin: m.andConst(a, b.c, t)}
 	case token.XOR, token.AND_NOT:
 		if op == token.XOR && a.isConst() && a.c.Sign() == 0 {
 			return VInt{lin: b}
 		}
 		if b.isConst() && b.c.Sign() == 0 {
 			return VInt{lin: a}
+		}
+		if op == token.AND_NOT && b.isConst() && !a.isConst() {
+			// a &^ c = a - (a & c)
+			return VInt{lin: a.add(m.andConst(a, b.c, t), -1)}
 		}
 		if !a.isConst() || !b.isConst() {
 			panic("int mode: symbolic " + op.String())
@@ -910,3 +982,37 @@ func concreteInt(v Value) (int, bool) {
 }
 
 var _ = strings.Join
+
+
+// andConst computes a & c for a constant c as a sum over the runs of one-bits of c:
+// ((a >> lo) mod 2^len) << lo, with floor division and Euclidean remainder (exact for two's complement).
+func (m *Machine) andConst(a *Lin, c *big.Int, t types.Type) *Lin {
+	w, _, _ := intInfo(t)
+	cc := new(big.Int).And(c, mask(w))
+	res := linConstI(0)
+	i := 0
+	for i < w {
+		if cc.Bit(i) == 0 {
+			i++
+			continue
+		}
+		j := i
+		for j < w && cc.Bit(j) == 1 {
+			j++
+		}
+		sh := a
+		if i > 0 {
+			sh, _ = m.divmod(a, new(big.Int).Lsh(big.NewInt(1), uint(i)))
+		}
+		var part *Lin
+		if j >= w {
+			// run reaches the top bit: for a non-negative value this is just the quotient
+			part = sh
+		} else {
+			_, part = m.divmod(sh, new(big.Int).Lsh(big.NewInt(1), uint(j-i)))
+		}
+		res = res.add(part.scale(new(big.Int).Lsh(big.NewInt(1), uint(i))), 1)
+		i = j
+	}
+	return res
+}
